@@ -152,11 +152,70 @@ func onlyCompared(v ssa.Value, seen map[ssa.Value]bool) bool {
 			if !onlyCompared(x, seen) {
 				return false
 			}
+		case *ssa.ChangeInterface:
+			// error → any on the way into fmt.Errorf(..., err)
+			if !onlyCompared(x, seen) {
+				return false
+			}
+		case *ssa.Store:
+			// the variadic argument array of an error constructor whose own
+			// result goes nowhere (`err = fmt.Errorf("…: %w", err)` assigned to
+			// a variable that is never read): wrapping is not handling
+			if x.Val != v || !deadWrapArray(x.Addr, seen) {
+				return false
+			}
+		case *ssa.Call:
+			if !deadWrapCall(x, seen) {
+				return false
+			}
 		default:
 			return false
 		}
 	}
 	return true
+}
+
+var errorConstructors = map[string]bool{"fmt.Errorf": true, "errors.Join": true}
+
+func deadWrapCall(call *ssa.Call, seen map[ssa.Value]bool) bool {
+	if !errorConstructors[calleeName(call)] {
+		return false
+	}
+	return len(realReferrers(call)) == 0 || onlyCompared(call, seen)
+}
+
+func deadWrapArray(addr ssa.Value, seen map[ssa.Value]bool) bool {
+	ia, ok := addr.(*ssa.IndexAddr)
+	if !ok {
+		return false
+	}
+	arr, ok := ia.X.(*ssa.Alloc)
+	if !ok {
+		return false
+	}
+	used := false
+	for _, r := range realReferrers(arr) {
+		switch x := r.(type) {
+		case *ssa.IndexAddr:
+			// element addresses: stores only
+			for _, rr := range realReferrers(x) {
+				if _, isStore := rr.(*ssa.Store); !isStore {
+					return false
+				}
+			}
+		case *ssa.Slice:
+			for _, rr := range realReferrers(x) {
+				call, isCall := rr.(*ssa.Call)
+				if !isCall || !deadWrapCall(call, seen) {
+					return false
+				}
+				used = true
+			}
+		default:
+			return false
+		}
+	}
+	return used
 }
 
 // ---------------------------------------------------------------------------
